@@ -340,7 +340,7 @@ def check_scenario(ctx, g, plan, rows, genres, stats):
             if real["async"] != bool(g.res["config"].get("async_client", True)):
                 diffs.append(("async", real["async"], g.res["config"].get("async_client")))
             for what, a, b in diffs:
-                run.violation(f"K1 {what} of {mname}: generated {a!r} vs model {b!r}",
+                argenc.k1v(run, f"K1 {what} of {mname}: generated {a!r} vs model {b!r}",
                               replay_of(g, op, generated=a, model_says=b), found_input=False)
         # ---- load status vs model
         if not ld.get("ok"):
@@ -406,6 +406,10 @@ def check_call(ctx, g, op, vds, c, names_ok, inputs_ok, f10_bad, stats, f21_ok=T
         model_agrees = same_value(sx_json(m_out[1]), sent_vars or {})
 
     def fail(what, involved=None, found=True):
+        import os
+        if not found and os.environ.get("VERIF_K3_ONLY"):
+            run.dist("k1_suppressed", "count")
+            return
         cls = classify(names_ok, inputs_ok, f10_bad, involved, f21=(not f21_ok) and model_agrees)
         rep = replay_of(g, op, c)
         if cls:
@@ -415,7 +419,7 @@ def check_call(ctx, g, op, vds, c, names_ok, inputs_ok, f10_bad, stats, f21_ok=T
             run.violation(what, rep, found_input=found)
 
     if (m_constructible == "t") != (not (exc and exc[0] == "args:ValidationError")) and names_ok and inputs_ok:
-        run.violation(f"K1 constructible: model {m_constructible}, implementation {exc}", replay_of(g, op, c), found_input=False)
+        argenc.k1v(run, f"K1 constructible: model {m_constructible}, implementation {exc}", replay_of(g, op, c), found_input=False)
     if exc and exc[0].startswith("args:"):
         run.dist("outcomes", "argument-not-constructible")
         fail(f"schema-valid argument could not be constructed: {exc[0]} {exc[1][:300]}")
